@@ -78,6 +78,14 @@ Definition P_search (rules : list rule) (A B : version) (ans : option (list rule
     end
   else true.
 
+(* a sequence of searches, each judged *)
+Fixpoint all_P_search (rules : list rule) (qs : list rule) (answers : list (option (list rule))) : bool :=
+  match qs, answers with
+  | [], [] => true
+  | q :: qs', a :: as' => P_search rules (fst q) (snd q) a && all_P_search rules qs' as'
+  | _, _ => false
+  end.
+
 (* ---------------------------------------------------------------- part 2: applying it *)
 
 Definition ok_out (o : outcome) : option (list obj) :=
